@@ -87,7 +87,7 @@ def parse_counts(out):
     return int(m.group(1)), int(m.group(2))
 
 
-def tlc_mc(module, cfg, workers=8, timeout=900, name=None, coverage=True, need_actions=()):
+def tlc_mc(module, cfg, workers=8, timeout=900, name=None, coverage=True, need_actions=(), allow_never=()):
     """Exhaustive model check. Any TLC error (invariant violated, deadlock, parse error) is a tool error:
     the model itself is inconsistent, which says nothing about the code."""
     name = name or cfg.replace(".cfg", "")
@@ -101,7 +101,7 @@ def tlc_mc(module, cfg, workers=8, timeout=900, name=None, coverage=True, need_a
     if coverage:
         # <Action line a, col b to line c, col d of module M>: distinct:total
         for m in re.finditer(r"^<(\w+) line \d+, col \d+ to line \d+, col \d+ of module (\w+)>: (\d+):(\d+)", out, re.M):
-            if int(m.group(4)) == 0 and m.group(1) not in ("Init",):
+            if int(m.group(4)) == 0 and m.group(1) not in ("Init",) and m.group(1) not in allow_never:
                 never.append(m.group(1))
         for a in need_actions:
             if not re.search(rf"^<{a} line .*>: \d+:[1-9]", out, re.M):
@@ -111,6 +111,26 @@ def tlc_mc(module, cfg, workers=8, timeout=900, name=None, coverage=True, need_a
         raise ToolError(f"vacuity: actions never taken in {cfg}: {sorted(set(never))}")
     log(f"[tlc] {cfg}: {gen} transitions, {dist} distinct states, {dt:.1f}s")
     return {"cfg": cfg, "transitions": gen, "states": dist, "wall_s": round(dt, 1)}
+
+
+def apalache_check(module, init, inv, length, cinit="ConstInit", timeout=900, name=None):
+    """Bounded / inductive check with Apalache (typed module). Anything but `NoError` is a tool error: it is a statement about
+    the specification, not about the code."""
+    name = name or f"{module}_{init}_{inv}"
+    out_dir = os.path.join(WORK, "apalache", name)
+    os.makedirs(out_dir, exist_ok=True)
+    cmd = ["timeout", str(timeout), "apalache-mc", "check", f"--out-dir={out_dir}", f"--cinit={cinit}", f"--init={init}",
+           f"--inv={inv}", f"--length={length}", module]
+    t = time.time()
+    p = subprocess.run(cmd, cwd=SPEC, stdout=subprocess.PIPE, stderr=subprocess.STDOUT, text=True, errors="replace")
+    dt = time.time() - t
+    import shutil
+    shutil.rmtree(out_dir, ignore_errors=True)
+    if "The outcome is: NoError" not in p.stdout:
+        log(p.stdout[-3000:])
+        raise ToolError(f"apalache: {module} --init={init} --inv={inv} --length={length} did not end with NoError (rc={p.returncode})")
+    log(f"[apalache] {module}: {init} /\\ {length} step(s) => {inv}: no error, {dt:.1f}s")
+    return {"cfg": f"apalache {module} init={init} inv={inv} length={length}", "states": 0, "transitions": 0, "wall_s": round(dt, 1)}
 
 
 _tla_str = re.compile(r'^<<"(\w+)", (".*")>>$')
